@@ -349,15 +349,24 @@ func (update *Update) Prepend(eventlist *EventList) error {
 	if count == 0 {
 		return nil
 	}
+	if len(update.Events) == 0 {
+		return errors.New("cannot prepend to an update without events")
+	}
+	if update.SignedAccumulator == nil || update.SignedAccumulator.Accumulator == nil {
+		return errors.New("cannot prepend to an update that has not been verified")
+	}
 	ours := update.Events[0].Index
 	last := eventlist.Events[count-1].Index
-	if last < ours-1 {
+	// The indices come from the other party: no arithmetic on them may wrap around.
+	// (Nothing is older than event 0, so there is nothing to prepend to an update that starts there.)
+	if ours == 0 || last < ours-1 {
 		return errors.New("missing events")
 	}
-	min := int(1 + last - ours)
-	if min > len(update.Events) {
+	overlap := last - (ours - 1) // number of our events that eventlist also covers
+	if overlap > uint64(len(update.Events)) {
 		return errors.New("events too new")
 	}
+	min := int(overlap)
 
 	n := &Update{
 		SignedAccumulator: update.SignedAccumulator,
